@@ -26,6 +26,7 @@ use vmodel::setup::{self, Backend, Config};
 pub(crate) enum Which {
     Identity,
     Account,
+    Device,
     Folder(VaultId),
 }
 
@@ -34,6 +35,7 @@ impl Which {
         match self {
             Which::Identity => "identity",
             Which::Account => "account",
+            Which::Device => "device",
             Which::Folder(_) => "folder",
         }
     }
@@ -41,6 +43,7 @@ impl Which {
         match self {
             Which::Identity => EventLogType::Identity,
             Which::Account => EventLogType::Account,
+            Which::Device => EventLogType::Device,
             Which::Folder(id) => EventLogType::Folder(*id),
         }
     }
@@ -65,8 +68,24 @@ pub(crate) async fn set_log<S: StorageEventLogs>(s: &S, which: Which, base: &Com
     match which {
         Which::Identity => go!(s.identity_log().await, WriteEvent::SetVaultName),
         Which::Account => go!(s.account_log().await, AccountEvent::RenameAccount),
+        Which::Device => go!(s.device_log().await, device_event),
         Which::Folder(id) => go!(s.folder_log(&id).await, WriteEvent::SetVaultName),
     }
+}
+
+/// The device-log letter: trusting one of three fixed (never used) device keys. A trusted
+/// device carries its creation time, so each letter is built once and re-used byte for byte.
+pub(crate) fn device_event(name: String) -> sos_core::events::DeviceEvent {
+    static LETTERS: std::sync::OnceLock<std::sync::Mutex<std::collections::BTreeMap<u8, sos_core::events::DeviceEvent>>> = std::sync::OnceLock::new();
+    let b = name.as_bytes()[0];
+    let map = LETTERS.get_or_init(Default::default);
+    let mut map = map.lock().unwrap();
+    map.entry(b)
+        .or_insert_with(|| {
+            let pk: sos_core::device::DevicePublicKey = [b; 32].into();
+            sos_core::events::DeviceEvent::Trust(sos_core::device::TrustedDevice::new(pk, None, None))
+        })
+        .clone()
 }
 
 pub(crate) async fn head<S: StorageEventLogs>(s: &S, which: Which) -> Result<CommitHash, String> {
@@ -80,6 +99,7 @@ pub(crate) async fn head<S: StorageEventLogs>(s: &S, which: Which) -> Result<Com
     match which {
         Which::Identity => go!(s.identity_log().await),
         Which::Account => go!(s.account_log().await),
+        Which::Device => go!(s.device_log().await),
         Which::Folder(id) => go!(s.folder_log(&id).await),
     }
 }
@@ -144,7 +164,7 @@ pub async fn run(args: &Args, rep: &mut Reporter) {
 
     // cases: (which log, local suffix, server suffix, page limit)
     let seqs = all_seqs(max_len);
-    let whichs = [Which::Folder(folder), Which::Account, Which::Identity];
+    let whichs = [Which::Folder(folder), Which::Account, Which::Identity, Which::Device];
     let mut cases: Vec<(Which, Vec<u8>, Vec<u8>, u16)> = vec![];
     let mut k = 0usize;
     for (wi, which) in whichs.iter().enumerate() {
@@ -167,7 +187,7 @@ pub async fn run(args: &Args, rep: &mut Reporter) {
     let enumerated = cases.len();
     // random longer pairs: common prefix, then diverging tails with planted coincidences; lengths beyond the page size
     for i in 0..random_pairs {
-        let which = whichs[i % 3];
+        let which = whichs[i % 4];
         let common = rng.range(0, 40) as usize;
         let pre: Vec<u8> = (0..common).map(|_| rng.usize(3) as u8).collect();
         let ta = rng.range(0, 45) as usize;
